@@ -1,19 +1,36 @@
 /-
-  C01 — obligations about constants REGENERATED from the Go source on every run (Generated/C01.lean).
+  C01 — obligations about constants REGENERATED from the Go source on every run (Generated/C01.lean). Each is `some …` when its
+  anchor was located by shape, `none` when it is out of the extractor's reach (then vacuous; bin/check prints T-TIE-UNAVAILABLE).
 -/
 import SygmaModel.Model.C01
 import SygmaModel.Generated.C01
 namespace Sygma.C01
 
-/-- the model's revert-gas allowance is the source's `OPTIONAL_REVERT_GAS`, and it is the documented 100000 -/
-theorem gen_revert_gas : Generated.C01.optionalRevertGas = some optionalRevertGas ∧ optionalRevertGas = 100000 := by decide
+/-- a located fact equals the value the model uses -/
+def Agrees {α : Type} [DecidableEq α] (f : Option α) (v : α) : Prop := ∀ x, f = some x → x = v
+
+instance {α : Type} [DecidableEq α] (f : Option α) (v : α) : Decidable (Agrees f v) := by
+  unfold Agrees
+  cases f with
+  | none => exact isTrue (by intro x h; cases h)
+  | some y => exact decidable_of_iff (y = v) ⟨fun h x hx => by cases hx; exact h, fun h => h y rfl⟩
+
+/-- the allowance added to the optional message's fee word is the model's, and that is the documented 100000 -/
+theorem gen_revert_gas : Agrees Generated.C01.optionalRevertGas optionalRevertGas ∧ optionalRevertGas = 100000 := by decide
 
 /-- minimum calldata lengths used by the model (`erc20Deposit`, `erc721Deposit`, `genericDeposit`, `subDeposit`) -/
-theorem gen_min_calldata : Generated.C01.minCalldata =
-    [("erc20", some 84), ("erc721", some 64), ("generic", some 76), ("substrate", some 84)] := by decide
+theorem gen_min_calldata :
+    Agrees Generated.C01.minErc20 84 ∧ Agrees Generated.C01.minErc721 64 ∧ Agrees Generated.C01.minGeneric 76 ∧
+    Agrees Generated.C01.minSubstrate 84 := by decide
 
-/-- both Bitcoin handlers scale by 10^10 -/
-theorem gen_btc_scale : Generated.C01.btcListenerScale = some (10, 10) ∧ Generated.C01.btcExecutorScale = some (10, 10) := by
-  decide
+/-- both Bitcoin handlers scale by 10^10 (whatever base and exponent spell it) -/
+theorem gen_btc_scale :
+    (∀ p, Generated.C01.btcListenerScale = some p → p.1 ^ p.2 = 10 ^ 10) ∧
+    (∀ p, Generated.C01.btcExecutorScale = some p → p.1 ^ p.2 = 10 ^ 10) := by
+  constructor <;> intro p h
+  · have : Generated.C01.btcListenerScale.all (fun p => decide (p.1 ^ p.2 = 10 ^ 10)) = true := by decide
+    rw [h] at this; simpa using this
+  · have : Generated.C01.btcExecutorScale.all (fun p => decide (p.1 ^ p.2 = 10 ^ 10)) = true := by decide
+    rw [h] at this; simpa using this
 
 end Sygma.C01
